@@ -106,6 +106,19 @@ func runC14(r *mc.Run) {
 			m3[48+i]--
 			quotes = append(quotes, qv{fmt.Sprintf("teetcb%d-below", i), m3})
 		}
+		// TEE_TCB_SVN is a vector of independent components: one component below the minimum while
+		// another one is above it, for every ordered pair of positions
+		for i := 0; i < 16; i++ {
+			for j := 0; j < 16; j++ {
+				if i == j {
+					continue
+				}
+				m4 := append([]byte(nil), raw0...)
+				m4[48+i]--
+				m4[48+j] += 0x40
+				quotes = append(quotes, qv{fmt.Sprintf("teetcb%d-below,%d-above", i, j), m4})
+			}
+		}
 	}
 
 	type pcase struct {
